@@ -186,6 +186,7 @@ func propC07() *Prop {
 			js = append(js, lbJob("C07c/wiring[the backend may send interim 1xx responses before its final status]", "VerifC07Wiring", 1))
 			js = append(js, threadJob(job("C07b/concurrent-admission[2 threads]", "circuitbreaker", "VerifC07Concurrent", 2), 2))
 			js = append(js, threadJob(job("C07b/straggler-completes-while-a-trial-is-in-flight[half-open]", "circuitbreaker", "VerifC07StragglerHalfOpen"), 1))
+			js = append(js, threadJob(job("C07b/overlapping-failures-all-count[closed, with and without an expired counting window]", "circuitbreaker", "VerifC07OverlappingFailures"), 1))
 			js = append(js, threadJob(job("C07b/straggler-admitted-while-closed-completes-after-the-trip[fails]", "circuitbreaker", "VerifC07Straggler", 0), 2))
 			js = append(js, threadJob(job("C07b/straggler-admitted-while-closed-completes-after-the-trip[succeeds]", "circuitbreaker", "VerifC07Straggler", 1), 2))
 			if tier == "thorough" {
@@ -210,6 +211,10 @@ func propC08() *Prop {
 			js = append(js, job("C08a/recovery-from-any-invariant-state", "circuitbreaker", "VerifC08Step"))
 			js = append(js, lbJob(fmt.Sprintf("C08b/notifications-never-block[k=%d]", tierPick(tier, 3, 4)), "VerifC08Notify", tierPick(tier, 3, 4)))
 			js = append(js, threadJob(job("C08c/two-concurrent-successful-trials-close-the-breaker[max_requests = success_threshold = 2]", "circuitbreaker", "VerifC08ConcurrentTrials"), 3))
+			// results that arrive after a state change (stale results) must not wedge the breaker: the C07 straggler harnesses end with State() and a further request
+			js = append(js, threadJob(job("C08c/stale-result-does-not-block[straggler completes while a trial is in flight]", "circuitbreaker", "VerifC07StragglerHalfOpen"), 1))
+			js = append(js, threadJob(job("C08c/stale-result-does-not-block[straggler fails after the trip]", "circuitbreaker", "VerifC07Straggler", 0), 2))
+			js = append(js, threadJob(job("C08c/stale-result-does-not-block[straggler succeeds after the trip]", "circuitbreaker", "VerifC07Straggler", 1), 2))
 			js = append(js, lbJob("C08a/every-accepted-configuration-recovers[real validation + real setupCircuitBreaker, thresholds 1..3, max_requests unset..3]", "VerifC08Config"))
 			for k := int64(2); k <= tierPick(tier, 3, 5); k++ {
 				js = append(js, job(fmt.Sprintf("C08a/recovery-after-history[k=%d]", k), "circuitbreaker", "VerifC08Recovery", k))
@@ -305,6 +310,9 @@ func propC05() *Prop {
 				js = append(js, rrJob(job(fmt.Sprintf("C05a/round_robin-with-ejected-members[N=%d,every subset]", n), "loadbalancer", "VerifC05RoundRobinEjected", n)))
 			}
 			js = append(js, threadJob(rrJob(lbJob("C05a/round_robin-concurrent-pickers-one-ejected[N=3,2 threads x 1]", "VerifC05RRConcurrentEjected", 3, 2, 1)), int(tierPick(tier, 2, 3))))
+			for _, st := range []int64{0, 1, 2} {
+				js = append(js, threadJob(lbJob(fmt.Sprintf("C05d/pick-overlapping-a-successful-probe-and-a-listing[%s,N=3]", strategyNames[st]), "VerifC05PickDuringBookkeeping", st), int(tierPick(tier, 2, 3))))
+			}
 			if tier == "thorough" {
 				js = append(js, threadJob(rrJob(lbJob("C05a/round_robin-concurrent-pickers-one-ejected[N=3,2 threads x 2]", "VerifC05RRConcurrentEjected", 3, 2, 2)), 2))
 			}
@@ -552,6 +560,7 @@ func propC03() *Prop {
 				}
 				js = append(js, j)
 			}
+			js = append(js, threadJob(lbJob("C03/concurrent-failed-responses[a 5xx storm does not crash the proxy: no unsynchronised map access]", "VerifC04ConcurrentFailures"), int(tierPick(tier, 2, 3))))
 			js = append(js, job("C03/histories[health events incl. in-flight probes, traffic and admin reads: nothing wedges; k=4]", "loadbalancer", "VerifC04History", 0, 4))
 			js = append(js, lbJob("C03/timeouts-never-disabled", "VerifC03Timeouts"))
 			js = append(js, mainJob("C03/full-handler-stack[breaker+limiter+passive]", "VerifStack", 7, 2, 0))
@@ -870,6 +879,9 @@ func propC12() *Prop {
 			}
 			// lock discipline along histories (a lock leaked on one path wedges every later operation): the C04 event histories, deadlock detection only matters here
 			js = append(js, job("C12/histories[health events incl. a probe in flight across an ejection, then traffic and admin reads; k=4]", "loadbalancer", "VerifC04History", 0, 4))
+			for st := int64(0); st < 5; st++ {
+				js = append(js, threadJob(lbJob(fmt.Sprintf("C12/pair[pick || ejection of the last healthy backend, %s]", strategyNames[st]), "VerifC12PickVsLastEjection", st), int(tierPick(tier, 2, 3))))
+			}
 			js = append(js, threadJob(lbJob("C12/pair[health-check tick || Stop]", "VerifC19Stop", 0, 1, 1), int(tierPick(tier, 2, 3))))
 			js = append(js, threadJob(lbJob("C12/pair[Stop || Stop]", "VerifC19Stop", 1, 1, 0), int(tierPick(tier, 2, 3))))
 			js = append(js, threadJob(lbJob("C12/pair[Stop || probe in flight to a hung backend]", "VerifC19Stop", 3, 1, 0), 2))
